@@ -74,8 +74,10 @@ extern void *mpt_buffer_insert(MPT_STRUCT(buffer) *buf, size_t pos, size_t len)
 	/* init all new data */
 	if (init) {
 		while (used < pos) {
+			/* only keep initialized elements */
 			if (init(base + used, 0) < 0) {
-				break;
+				buf->_used = used;
+				return 0;
 			}
 			used += size;
 		}
